@@ -148,7 +148,12 @@ def collapse (rows : Table) : Table := rows.foldl (fun t kc => t.add kc.1 kc.2) 
 
 /-! ### judge -/
 
-def judgeParsed (q : Query) (hist : List DB.WriteOut) (damaged : List Int) (big : Bool) (out : String) : String :=
+def judgeParsed (q : Query) (hist : List DB.WriteOut) (damaged : List Int) (big : Bool) (out0 : String) : String :=
+  -- the reader process also lists the interfaces over the queried range (`ReadMetadata`): whatever
+  -- the files hold, that may fail but must not crash
+  let parts := out0.splitOn " list="
+  let out := parts.headD out0
+  if parts.length == 2 && parts.getLast? != some "fine" then "violates:listing-crashed" else
   if out == "panic" then "violates:panic" else
   if out == "hang" then "violates:hang" else
   if out == "oom" then (if big then "violates:oom-huge-announced-length" else "violates:oom") else
